@@ -193,7 +193,13 @@ var seedsOf = map[string][]string{
 	"avc.DecodeAVCDecConfRec": {"0164001effe100196764001eacd940a02ff9610000030001000003003c8f162d9601000568ebecb22cfdf8f800",
 		"0142001effe1000467420001010002684e"},
 	"hevc.ParseSPSNALUnit":  hevcSPSHex,
-	"hevc.ParsePPSNALUnit":  hevcPPSHex,
+	// + hand-written units selecting the multilayer and the 3D extension (colour mapping table with octants, delta DLT);
+	// in three of them luma_bit_depth_cm_input_minus8 is 100, 2^32-1, 2^63-9: res_coeff_r is then read with a width far
+	// beyond the unit (r.Read(n) runs into EOF)
+	"hevc.ParsePPSNALUnit": append([]string{"4401c071801580409fc04f0d8020080040080608001a",
+		"4401c071801580409fc04032f0d8020080040080608001a0",
+		"4401c071801580409fc040000003000800000300070d8020080040080608001a",
+		"4401c071801580409fc040000003000003000003003ffffffffffffffc70d8020080040080608001a0"}, hevcPPSHex...),
 	"hevc.ParseSliceHeader": {"2601af0940b6c2", "0201d00d8e20", "28019e0ba0", "26018f5c1be0", "4001", "02010000"},
 	"hevc.ParseSEINalu": {"4e0101071000001a0000030180", "4e01891800000300000300000300000300000300000300000300000300000300000300000300009004000003000080",
 		"4e01000a8000000300403dc017a6900105040000be05880660404198b41080", "4e018805604041" + "98b41080"},
